@@ -136,7 +136,12 @@ def r2_invalidation(ctx):
         for x in ast.walk(t.ast):
             if isinstance(x, (ast.List, ast.Tuple)):
                 names = sorted(getattr(e, "value", None) for e in x.elts)
-                ok = names == sorted(["_itemgetter", "_set_values", "_computed", "_data", "_computed_values", "_header"])
+                # the bookkeeping attributes are the ones the table's own __init__ creates (whatever they are called); a dataclass FIELD name in this list would let an
+                # assignment by-pass the overlay, a bookkeeping name missing from it would be stored as if it were a field
+                init = ix.func(LZ, f"{LAZY}.__init__")
+                own = sorted({a.targets[0].attr for a in body_walk(init.node) if isinstance(a, ast.Assign) and isinstance(a.targets[0], ast.Attribute) and u(a.targets[0].value) == "self"})
+                ok = bool(own) and all(isinstance(n_, str) and n_.startswith("_") for n_ in names) and len(set(names)) == len(names) == len(own) and \
+                    len(set(names) - set(own)) == len(set(own) - set(names))      # (a renamed private attribute is mapped back to its reference name in __init__ by the normal form, but not inside this list of strings)
     ctx.ob(sa.where, "only the table's own bookkeeping attributes are set directly; every other name goes to the overlay", ok, "", key="C05-R2|internal-names")
     # other writers of _set_values anywhere in the class?
     writers = []
